@@ -37,8 +37,12 @@ def det_false_claim(f):
 
 
 def det_hang(f):
-    blk = _pipe(f["input"], "facts", timeout=6)
-    return bool(blk) and blk[0].startswith("HANG")
+    # `tries`: the witness may depend on a hash-order dependent choice (which return becomes the exit)
+    for _ in range(f.get("tries", 1)):
+        blk = _pipe(f["input"], "facts", timeout=6)
+        if bool(blk) and blk[0].startswith("HANG"):
+            return True
+    return False
 
 
 def det_lint_count(f):
